@@ -17,7 +17,7 @@ RULE = ('queries {finite flat facts; a fact whose second argument is a 60-elemen
         'rule with a deep failing branch between answers; registered Python predicates whose clean-up (finally) code needs 0, 3, 12 or 30 nested calls, queried directly and through call/1; predicates answered from two sources (dynamic facts followed by compiled clauses, dynamic facts followed by a Python predicate)} x EVERY recursion_limit from 8 to 400 (each value moves the '
         'point at which the limit strikes; quick: every value up to 89, then every 7th) x projection functions {identity, observe the variables, '
         'raise ValueError at the k-th answer for k=1..5, raise RuntimeError at the 2nd, raise StopIteration at the 2nd, run a bounded sub-query on the same engine for every answer (nested evaluate_bounded, inner limit 150 / 500)}, '
-        'called from a shallow stack; plus bounds ABOVE the interpreter\'s own limit (1200, 3000, 10000) for nat/1, ev/1, a compiled recursion over a dynamic base fact and len/2 of a 700-element list, with the identity projection and projections raising at answer 1, 200, 450, 900, 1400 (each call in a forked child: a dying interpreter is a violation); plus, for 8 queries at every limit 8..63, the same call in a quiet process and in one with every logger at DEBUG, a stream handler attached and warnings turned into errors, which must return the same. Checked: no RecursionError escapes; the result is a prefix of RefProlog\'s answer '
+        'called from a shallow stack, in every 5th case while another query of the same engine is suspended at its first answer (it must be undisturbed afterwards); plus bounds ABOVE the interpreter\'s own limit (1200, 3000, 10000) for nat/1, ev/1, a compiled recursion over a dynamic base fact and len/2 of a 700-element list, with the identity projection and projections raising at answer 1, 200, 450, 900, 1400 (each call in a forked child: a dying interpreter is a violation); plus, for 8 queries at every limit 8..63, the same call in a quiet process and in one with every logger at DEBUG, a stream handler attached and warnings turned into errors, which must return the same. Checked: no RecursionError escapes; the result is a prefix of RefProlog\'s answer '
         'sequence (projected), and the whole sequence when the limit exceeds the measured stack depth of an unbounded '
         'run by a margin; afterwards sys.getrecursionlimit() is the old value and every live engine variable (weak set '
         'hook) is unbound - also when the projection raised and the caller still holds the query. evaluations = '
@@ -199,11 +199,35 @@ def _stack():
     return out
 
 
-def one_call(pytext, qname, goal, limit, pname, exp, need_depth):
-    """-> None | (sig, detail) ; plus info tuple"""
+def one_call(pytext, qname, goal, limit, pname, exp, need_depth, bystander=False):
+    """-> None | (sig, detail) ; plus info tuple
+    bystander: another query of the same engine (col(C), over its own variable) is suspended at its
+    first answer while evaluate_bounded runs; it must be exactly where it was afterwards"""
     yp = impl.YP()
     yp.load_script_from_string(pytext, fn=impl.SCRIPT_FN)
     register_python(yp)
+    by = None
+    if bystander:
+        bv = yp.variable()
+        bq = yp.query('col', [bv])
+        next(bq)
+        by = (bv, bq)
+    r = _one_call(yp, qname, goal, limit, pname, exp, need_depth)
+    if by is not None and r[0] is None:
+        bv, bq = by
+        rest = [impl.observe([bv])]
+        for _ in bq:
+            rest.append(impl.observe([bv]))
+        want = [(('a', 'red'),), (('a', 'green'),), (('a', 'blue'),)]
+        if rest != want:
+            return ('bystander-query-disturbed', 'a query col(C) of the same engine was suspended at its first answer while evaluate_bounded ran; afterwards it shows %r and continues with %r (expected %r)'
+                    % (rest[0], rest[1:], want)), None
+    elif by is not None:
+        by[1].close()
+    return r
+
+
+def _one_call(yp, qname, goal, limit, pname, exp, need_depth):
     vm = {}
     args = [impl.to_engine(yp, x, vm) for x in goal[2]]
     obs = [impl.to_engine(yp, ('v', k), vm) for k in term_vars(goal)]
@@ -309,7 +333,7 @@ def _shard(spec, acc):
                     continue
                 acc.n['evaluations'] += 1
                 acc.n['validated'] += 1
-                bad, info = one_call(pytext, qn, goal, limit, pn, exp[qn], depth[qn])
+                bad, info = one_call(pytext, qn, goal, limit, pn, exp[qn], depth[qn], bystander=(idx % 5 == 0))
                 if sys.getrecursionlimit() != 1000:
                     sys.setrecursionlimit(1000)
                 if bad:
